@@ -144,6 +144,11 @@ pub struct Oracles {
     pub quick_read_faults: bool,
     /// Key of the first panic in the current lifetime (cause of later hangs).
     pub first_panic_key: Option<String>,
+    /// E2: injected RPC faults in this run; watcher bookkeeping.
+    pub e2_faults: u64,
+    pub watch_told: u32,
+    pub watch_last: u32,
+    pub watch_observations: u64,
 }
 
 impl Oracles {
@@ -162,6 +167,10 @@ impl Oracles {
             probe_results: Vec::new(),
             quick_read_faults: false,
             first_panic_key: None,
+            e2_faults: 0,
+            watch_told: 0,
+            watch_last: 0,
+            watch_observations: 0,
         }
     }
 
@@ -211,6 +220,22 @@ impl Oracles {
             self.hit("skipped.rule-not-evaluated-under-backpressure");
             return;
         }
+        // C19: with an explicit option assignment, a value that is enforced
+        // differently from the configured one is (also) a configuration fault.
+        if w.cfg.raw_opts.is_some()
+            && prop != "C19"
+            && matches!(
+                (prop, rule),
+                ("C11", "failed-before-timeout")
+                    | ("C11", "failed-late")
+                    | ("C04", "maxdelay-too-large")
+                    | ("C04", "maxdelay-above-policy")
+                    | ("C12", "first-htlc-not-rejected-with-policy")
+            )
+        {
+            let d = format!("configured value not applied ({} {}): {}", prop, rule, detail);
+            self.violate_k(w, "C19", "configured-value-not-applied", String::new(), d);
+        }
         // Keep the first few per (prop, rule) only.
         let n = self
             .violations
@@ -258,6 +283,43 @@ impl Oracles {
         self.expect_now.clear();
         self.step_new_rpcs.clear();
         self.table_len_before = None;
+    }
+
+    /// C19: refuse to start iff the reference validator says so.
+    pub fn on_boot_done(&mut self, w: &World) {
+        let must_refuse = match super::sched::config_must_refuse(&w.cfg) {
+            Some(r) => r,
+            None => return,
+        };
+        self.hit("c19.configuration-evaluated");
+        let refused = !w.init_acked;
+        if must_refuse {
+            self.hit("c19.invalid-configuration");
+        }
+        if must_refuse && !refused {
+            self.violate(
+                w,
+                "C19",
+                "started-with-invalid-configuration",
+                format!("the plugin acknowledged init although the configuration must be refused: {:?}", w.cfg.raw_opts),
+            );
+        }
+        if !must_refuse && refused {
+            self.violate(
+                w,
+                "C19",
+                "refused-valid-configuration",
+                format!("the plugin did not acknowledge init for a valid configuration: {:?} (main returned {:?})", w.cfg.raw_opts, w.main_result),
+            );
+        }
+        if refused && w.main_result.is_none() {
+            self.violate(
+                w,
+                "C19",
+                "neither-started-nor-exited",
+                "the plugin neither acknowledged init nor exited".into(),
+            );
+        }
     }
 
     pub fn on_crash(&mut self, _w: &World) {
@@ -463,6 +525,9 @@ impl Oracles {
     }
 
     pub fn on_rpc_issued(&mut self, w: &World, ri: usize) {
+        if w.cfg.mode != "process" {
+            return;
+        }
         let r = &w.node.rpcs[ri];
         let kind = rpc_kind(r.method, &r.params);
         if r.method != Method::Getinfo {
@@ -753,6 +818,20 @@ impl Oracles {
                 if bound < cfg.policy_delta as u64 {
                     self.hit("c04.expiry-bound-binding");
                 }
+                // C19: with one HTLC per set and a height that never moved the
+                // value is determined exactly.
+                if cfg.raw_opts.is_some() && w.told_low == w.told_all && cfg.max_parts == 1 {
+                    self.hit("c19.maxdelay-exact-checked");
+                    let want = bound.min(cfg.policy_delta as u64);
+                    if d != want {
+                        self.violate(
+                            w,
+                            "C19",
+                            "safety-margin-not-applied",
+                            format!("maxdelay {} but min(lowest expiry {} - height {} - configured safety delta {}, policy delta {}) = {}", d, minexp, told, cfg.cltv_delta, cfg.policy_delta, want),
+                        );
+                    }
+                }
                 if bound == 0 {
                     self.hit("c04.floored-at-zero");
                 }
@@ -789,6 +868,12 @@ impl Oracles {
     }
 
     pub fn on_rpc_applied(&mut self, w: &World, ri: usize) {
+        if w.cfg.mode != "process" {
+            if w.node.rpcs[ri].fault.is_some() {
+                self.e2_faults += 1;
+            }
+            return;
+        }
         let r = &w.node.rpcs[ri];
         let kind = rpc_kind(r.method, &r.params);
         let applied = r.fault.is_none() || r.fault == Some("applied-but-error");
@@ -864,6 +949,9 @@ impl Oracles {
 
     /// C08 global invariant after every applied effect.
     pub fn on_effect(&mut self, w: &World, _what: &'static str) {
+        if w.cfg.mode != "process" {
+            return;
+        }
         let mut seen: Vec<H32> = Vec::new();
         for p in &w.node.parts {
             if matches!(p.status, PartStatus::Pending | PartStatus::Complete) && !seen.contains(&p.hash) {
@@ -920,6 +1008,15 @@ impl Oracles {
     }
 
     pub fn on_reply_delivered(&mut self, w: &World, ri: usize, reply: &SimReply) {
+        if w.cfg.mode == "watcher" {
+            if let (Method::Getinfo, SimReply::Result(v)) = (w.node.rpcs[ri].method, reply) {
+                if let Some(h) = v.get("blockheight").and_then(|h| h.as_u64()) {
+                    self.watch_told = self.watch_told.max(h as u32);
+                    self.hit("c20.getinfo-reply-delivered");
+                }
+            }
+            return;
+        }
         let r = &w.node.rpcs[ri];
         let kind = rpc_kind(r.method, &r.params);
         let x = match r.hash {
@@ -967,6 +1064,116 @@ impl Oracles {
                 }
                 _ => {}
             }
+        }
+    }
+
+    // ------------------------------------------------------------------------
+    // E2 components
+    // ------------------------------------------------------------------------
+
+    pub fn on_component(&mut self, w: &World, label: &str, v: &Value) {
+        let x = super::content::pool().hashes[0];
+        let ok = v.get("ok").and_then(|o| o.as_bool()).unwrap_or(false);
+        let pre = v
+            .get("preimage")
+            .and_then(|p| p.as_str())
+            .and_then(rf::unhex);
+        match label {
+            "wait_payment" => {
+                self.hit("c15.wait-returned");
+                match (ok, pre) {
+                    (true, Some(p)) => {
+                        self.hit("c15.returned-preimage");
+                        if rf::sha256_of(&p) != x || !w.node.has_complete(&x) {
+                            self.violate(w, "C15", "preimage-without-complete-part", format!("wait_payment returned preimage {} but no part of the hash completed with it", rf::hex(&p)));
+                        }
+                    }
+                    (true, None) => {
+                        self.hit("c15.returned-none");
+                        if w.node.has_pending(&x) || w.node.has_complete(&x) {
+                            self.violate(
+                                w,
+                                "C15",
+                                "none-while-live",
+                                format!(
+                                    "wait_payment reported 'no payment' while pending={} complete={}",
+                                    w.node.has_pending(&x),
+                                    w.node.has_complete(&x)
+                                ),
+                            );
+                        }
+                    }
+                    (false, _) => {
+                        self.hit("c15.returned-error");
+                        if self.e2_faults == 0 {
+                            self.violate(
+                                w,
+                                "C15",
+                                "error-without-cause",
+                                format!("wait_payment failed although every RPC was answered with a result or a documented part failure code: {}", v),
+                            );
+                        }
+                    }
+                }
+            }
+            "pay" => {
+                self.hit("c16.pay-returned");
+                match (ok, pre) {
+                    (true, Some(p)) => {
+                        self.hit("c16.returned-success");
+                        if rf::sha256_of(&p) != x || !w.node.has_complete(&x) {
+                            self.violate(w, "C16", "success-without-complete-part", format!("pay wrapper returned success with {} but no part of the hash completed with that preimage", rf::hex(&p)));
+                        }
+                    }
+                    (true, None) => self.violate(w, "C16", "success-without-preimage", "pay wrapper returned success without preimage".into()),
+                    (false, _) => {
+                        self.hit("c16.returned-failure");
+                        if w.node.has_pending(&x) || w.node.has_complete(&x) || w.node.cmd_running(&x) {
+                            self.violate(
+                                w,
+                                "C16",
+                                "failure-while-live",
+                                format!(
+                                    "pay wrapper returned failure ({}) while pending={} complete={} pay-running={}",
+                                    v.get("error").and_then(|e| e.as_str()).unwrap_or(""),
+                                    w.node.has_pending(&x),
+                                    w.node.has_complete(&x),
+                                    w.node.cmd_running(&x)
+                                ),
+                            );
+                        }
+                    }
+                }
+            }
+            "new_block_done" => {
+                if let Some(h) = v.as_u64() {
+                    self.watch_told = self.watch_told.max(h as u32);
+                    self.hit("c20.new-block-processed");
+                }
+            }
+            "height" => {
+                if let Some(h) = v.as_u64() {
+                    let h = h as u32;
+                    self.watch_observations += 1;
+                    self.hit("c20.height-observed");
+                    if h < self.watch_last {
+                        self.violate(w, "C20", "height-decreased", format!("height went from {} to {}", self.watch_last, h));
+                    }
+                    if h != self.watch_told {
+                        self.violate(
+                            w,
+                            "C20",
+                            "height-not-max-of-told",
+                            format!("height is {} but the maximum of all heights told so far is {}", h, self.watch_told),
+                        );
+                    }
+                    if h > self.watch_last {
+                        self.hit("c20.height-raised");
+                    }
+                    self.watch_last = h;
+                }
+            }
+            _ => {}
         }
     }
 
@@ -1531,6 +1738,26 @@ impl Oracles {
     }
 
     pub fn end_of_run(&mut self, w: &World) {
+        // ---- C20: catch-up within one poll interval -------------------------------------
+        if w.cfg.mode == "watcher" {
+            if !w.plugin_up {
+                return;
+            }
+            if let Some((h, at)) = w.catchup {
+                if w.now_ms >= at + 60_000 {
+                    self.hit("c20.catch-up-checked");
+                    if self.watch_last < h {
+                        self.violate(
+                            w,
+                            "C20",
+                            "no-catch-up",
+                            format!("{} ms after notifications stopped (polls answered promptly) the height is {} but the node was at {} then", w.now_ms - at, self.watch_last, h),
+                        );
+                    }
+                }
+            }
+            return;
+        }
         // ---- C09: recovery probes -------------------------------------------------------
         {
             let mut by_hash: BTreeMap<usize, Vec<&super::node::HtlcRec>> = BTreeMap::new();
